@@ -4,7 +4,7 @@ package main
 // named []byte types are reference slices, and per generated file the structs and functions.
 
 // mPackages: package patterns (relative to the repository root) loaded for the translator.
-var mPackages = []string{".", "./typed", "./thrift/arg2", "./http"}
+var mPackages = []string{".", "./typed", "./thrift/arg2", "./http", "./thrift", "./json"}
 
 // mRefTypes: named []byte types whose values alias the backing array of a WriteBuffer.
 var mRefTypes = map[string]bool{
